@@ -5,6 +5,11 @@ import json, sys
 
 CLAIMED = {
   # id: (category, technique, text, note, design_ref)
+  "C09": ("fault_enumeration",
+          "deterministic simulation with fault injection: every model-call position of a seeded scenario gets a transient and a persistent failure; oracle over the recorded history plus a tap around the real optimizer",
+          "For each seeded scenario (build, caller-driven updates/queries, a complete fit with statistics, a recovery update) the sequence of model calls is learned fault-free and then every position is re-executed with a failing call (transient, persistent, burst, fail-after-mutating, wrong-length closure output), on hand-written and builder-made models, sequential and parallel (simulated schedules decide which column hits the failing derivative). After a failed update residuals/coefficients/Jacobian must be absent; a failed derivative yields no Jacobian; anything present must equal bitwise the state of a fresh fault-free problem at the reported parameters; an optimizer that received None must lead to Err; a failure during the statistics must lead to Err; the first clean update afterwards recovers; nothing panics. Exhaustive over single-fault positions of the generated scenarios, sampled over scenarios and multi-fault plans.",
+          "Trusted: simulated models, event log, the tap (pass-through LeastSquaresProblem) and that the tapped optimizer run equals the production fit (checked per run by comparing model-call logs; divergent runs skip the tap-based rules).",
+          "5 (C09), 3.3, 3.4"),
   "C10": ("exploration",
           "deterministic simulation: seeded operation histories with injected model failures, differential against a freshly built problem, heap-fill fault injection",
           "Seeded caller-driven histories (revisits, extreme parameters, failed updates, clones, conversions, whole fits) on hand-written and builder-made models, sequential and parallel flavours under simulated rayon schedules; after every clean update the reported coefficients/residuals/Jacobian must be bitwise equal to those of a freshly built problem at the same parameters, re-queries must be bitwise stable, and every scenario is executed under three heap fill patterns whose observable outputs must be bitwise identical (uninitialised memory would differ). Sampling, not proof.",
